@@ -1,5 +1,6 @@
 import ParryModel.C04.Theorems2
 import ParryModel.C07.Theorems
+import ParryModel.C04.ModelHf2
 import Mathlib.Order.WithBot
 /-!
 # C04 property theorems, part 4: composite shapes (TriMesh / Polyline / Compound) = brute force over the parts
@@ -219,6 +220,139 @@ theorem composite_cast_firstHit (big : K) (ray : Ray3 K) (max : K) (cast : P →
       rw [hc'] at hf'
       have h3 := hmin pr' hpr' t' hc'
       exact hf'.2.2.2 s a (lt_of_lt_of_le c h3) hm
+
+/-! ## 2-D HeightField cast (`ModelHf2.lean`, bit-exact): per-cell step, soundness, completeness of the linear walk -/
+
+/-- **`cast_on_cell` reports the segment cast of that cell**: same time and normal; only the feature id is converted
+(`Face(0) → Face(cell)`, back face `→ Face(cell + num_cells)`, `Vertex(i) → Vertex(cell + i)`), so the segment theorems of
+part 1 (point on the segment, unit perpendicular normal facing the ray) apply to every reported hit. -/
+theorem hf2_castOnCell_from_segment (h : HeightField2 K) (ray : Ray2 K) (max : K) (solid : Bool) (cell : Nat) (r : Hit2 K) :
+    letI := fieldNum K sq
+    letI := fieldUlps K
+    h.castOnCell ray max solid cell = some r →
+    ∃ seg r0, h.segmentAt cell = some seg ∧ cell < h.numCells ∧ seg.castLocalRayAndGetNormal ray max solid = some r0 ∧
+      r.toi = r0.toi ∧ r.n = r0.n := by
+  simp only [HeightField2.castOnCell]
+  rcases hseg : @HeightField2.segmentAt K (fieldNum K sq) h cell with _ | seg
+  · simp
+  · simp only
+    rcases hc : @Segment2.castLocalRayAndGetNormal K (fieldNum K sq) (fieldUlps K) seg ray max solid with _ | r0
+    · simp
+    · simp only [Option.some.injEq]
+      intro hr
+      have hlt : cell < h.numCells := by
+        simp only [HeightField2.segmentAt] at hseg
+        split_ifs at hseg with hh
+        push Not at hh
+        exact hh.1
+      refine ⟨seg, r0, rfl, hlt, hc, ?_⟩
+      subst hr
+      split_ifs <;> exact ⟨rfl, rfl⟩
+
+private theorem match_cases {α : Type} (x k : Option α) (r : α) :
+    (match x with | some i => some i | none => k) = some r → x = some r ∨ (x = none ∧ k = some r) := by
+  cases x <;> simp
+
+/-- **soundness of the walk**: a hit returned by the `while` loop is the `cast_on_cell` result of some cell -/
+theorem hf2_walk_sound (h : HeightField2 K) (ray : Ray2 K) (max : K) (solid : Bool) (maxT : K) (right : Bool) (r : Hit2 K) :
+    letI := fieldNum K sq
+    letI := fieldUlps K
+    ∀ fuel curr, h.walk ray max solid maxT right fuel curr = some r → ∃ cell, h.castOnCell ray max solid cell = some r := by
+  intro fuel
+  induction fuel with
+  | zero => intro curr hw; simp [HeightField2.walk] at hw
+  | succ n ih =>
+    intro curr hw
+    simp only [HeightField2.walk] at hw
+    split_ifs at hw
+    all_goals
+      split at hw
+      · rename_i inter heq
+        simp only [Option.some.injEq] at hw
+        subst hw; exact ⟨_, heq⟩
+      · exact ih _ hw
+
+/-- **2-D HeightField cast, soundness**: every reported hit is the `cast_on_cell` result of an existing cell (hence, by
+`hf2_castOnCell_from_segment`, a hit of that cell's segment with `toi ≤ max_toi`). -/
+theorem hf2_cast_sound (big : K) (h : HeightField2 K) (ray : Ray2 K) (max : K) (solid : Bool) (r : Hit2 K) :
+    letI := fieldNum K sq
+    letI := fieldUlps K
+    h.castLocalRayAndGetNormal big ray max solid = some r → ∃ cell, h.castOnCell ray max solid cell = some r := by
+  simp only [HeightField2.castLocalRayAndGetNormal]
+  rcases @clipAabbLine2 K (fieldNum K sq) big (@HeightField2.aabb K (fieldNum K sq) h) ray.o ray.d with _ | ⟨near, far⟩
+  · simp
+  · simp only
+    split_ifs
+    · simp
+    · simp
+    all_goals
+      intro hw
+      split at hw
+      · rename_i inter heq
+        simp only [Option.some.injEq] at hw
+        subst hw; exact ⟨_, heq⟩
+      · first
+        | (simp at hw; done)
+        | exact hf2_walk_sound sq h ray max solid _ _ r _ _ hw
+
+/-- **completeness of the walk to the right** (`dir.x > 0`): if the loop started in cell `curr` returns `None`, then every
+cell `c > curr` such that the boundary times `(cell_width·c' + start_x − origin.x)/dir.x` of all cells `curr < c' ≤ c` are
+below `max_t` has been cast and reported nothing — no cell before the `max_t` exit is skipped. -/
+theorem hf2_walk_right_complete (h : HeightField2 K) (ray : Ray2 K) (max : K) (solid : Bool) (maxT : K) :
+    letI := fieldNum K sq
+    letI := fieldUlps K
+    ∀ fuel curr, h.numCells - curr < fuel → h.walk ray max solid maxT true fuel curr = none →
+      ∀ c, curr < c → c ≤ h.numCells →
+        (∀ c', curr < c' → c' ≤ c → (h.ucw * h.sc.x * lit ((c' : Nat) : Int) + h.sc.x * lit (-1) 2 - ray.o.x) / ray.d.x < maxT) →
+        h.castOnCell ray max solid c = none := by
+  intro fuel
+  induction fuel with
+  | zero => intro curr hf; omega
+  | succ n ih =>
+    intro curr hf hw c hc1 hc2 hpar
+    simp only [HeightField2.walk, Bool.true_and, Bool.not_true, Bool.false_and, Bool.or_false, if_true,
+      decide_eq_true_eq] at hw
+    have hlt : curr < h.numCells := by omega
+    rw [if_pos hlt] at hw
+    have hp := hpar (curr + 1) (by omega) (by omega)
+    rw [if_neg (not_le.2 hp)] at hw
+    rcases hcc : @HeightField2.castOnCell K (fieldNum K sq) (fieldUlps K) h ray max solid (curr + 1) with _ | x
+    · rw [hcc] at hw
+      rcases Nat.lt_or_ge (curr + 1) c with hgt | hle
+      · exact ih (curr + 1) (by omega) hw c hgt hc2 (fun c' a b => hpar c' (by omega) b)
+      · have : c = curr + 1 := by omega
+        rw [this]; exact hcc
+    · rw [hcc] at hw; simp at hw
+
+/-- **completeness of the walk to the left** (`dir.x < 0`), with the exit test exactly as coded,
+`(origin.x − cell_width·c' − start_x)/dir.x ≥ max_t`.  (That expression is MINUS the parameter at which the ray crosses the
+left boundary of cell `c'`, so for boundaries ahead of the origin it is `≤ 0` and the exit does not fire: the walk to the left
+casts every remaining cell — each with `max_toi` — which costs time but cannot lose or invent a hit.) -/
+theorem hf2_walk_left_complete (h : HeightField2 K) (ray : Ray2 K) (max : K) (solid : Bool) (maxT : K) :
+    letI := fieldNum K sq
+    letI := fieldUlps K
+    ∀ fuel curr, curr < fuel → h.walk ray max solid maxT false fuel curr = none →
+      ∀ c, c < curr →
+        (∀ c', c < c' → c' ≤ curr → (ray.o.x - h.ucw * h.sc.x * lit ((c' : Nat) : Int) - h.sc.x * lit (-1) 2) / ray.d.x < maxT) →
+        h.castOnCell ray max solid c = none := by
+  intro fuel
+  induction fuel with
+  | zero => intro curr hf; omega
+  | succ n ih =>
+    intro curr hf hw c hc1 hpar
+    simp only [HeightField2.walk, Bool.false_and, Bool.not_false, Bool.true_and, Bool.false_or, Bool.false_eq_true,
+      if_false, decide_eq_true_eq] at hw
+    have hpos : 0 < curr := by omega
+    rw [if_pos hpos] at hw
+    have hp := hpar curr hc1 (le_refl _)
+    rw [if_neg (not_le.2 hp)] at hw
+    rcases hcc : @HeightField2.castOnCell K (fieldNum K sq) (fieldUlps K) h ray max solid (curr - 1) with _ | x
+    · rw [hcc] at hw
+      rcases Nat.lt_or_ge c (curr - 1) with hgt | hle
+      · exact ih (curr - 1) (by omega) hw c hgt (fun c' a b => hpar c' a (by omega))
+      · have : c = curr - 1 := by omega
+        rw [this]; exact hcc
+    · rw [hcc] at hw; simp at hw
 
 /-- non-vacuity: a one-leaf tree over `ℚ` whose box `[0,1]³` contains its part (the point set `{(1/2,1/2,1/2)}`) -/
 example : GeoOK (K := ℚ) (P := Unit) (fun _ q => q = ⟨1/2, 1/2, 1/2⟩) (.leaf ⟨⟨0, 0, 0⟩, ⟨1, 1, 1⟩⟩ ()) := by
